@@ -123,6 +123,15 @@ def case(draw, mmax=8, allow_r=True, force_m=None):
         bset.add(v)
     bh = sorted(bset, reverse=True)  # decreasing heights = increasing forward times
     m = len(bh) + 1
+    default_grid = force_m is None and draw(st.integers(0, 2)) == 0
+    if default_grid:
+        # no `times` in the specification: m equal slices of the origin (documented default)
+        m = draw(st.integers(1, mmax))
+        bh = [x0 * (1.0 - j / m) for j in range(1, m)]
+        if any(abs(b - x) <= 1e-6 * max(1.0, x0) for b in bh for x in internal + [t_ for t_ in t["tip_heights"] if t_ > 0]):
+            default_grid = False
+            bh = sorted(bset, reverse=True)
+            m = len(bh) + 1
     R = [draw(logu(0.3, 4.0)) for _ in range(m)]
     delta = [draw(logu(0.2, 3.0)) for _ in range(m)]
     serial = max(t["tip_heights"]) > 0
@@ -146,7 +155,7 @@ def case(draw, mmax=8, allow_r=True, force_m=None):
             rho[j - 1] = draw(fl(0.05, 0.9))  # rho-sampling nobody was caught in
     c = {"tree": t, "extra": extra, "bh": bh, "R": R, "delta": delta, "s": s, "rho": rho,
          "survival": draw(st.booleans()), "root_edge": draw(st.booleans()),
-         "relative": draw(st.booleans()), "times_as": draw(st.sampled_from(["list", "param"]))}
+         "relative": draw(st.booleans()), "times_as": "default" if default_grid else draw(st.sampled_from(["list", "param"]))}
     if any(b in tipset for b in bh):
         # a boundary given as a fraction of the origin is a rounded product: exact coincidence with a
         # sampling time cannot be expressed reliably with relative times
@@ -178,7 +187,7 @@ def spec_of(c):
         spec["origin_is_root_edge"] = True
     else:
         spec["origin"] = tt.P("origin", [x0])
-    if m > 1 or c.get("explicit_times"):
+    if (m > 1 or c.get("explicit_times")) and c["times_as"] != "default":
         times = T[:-1]
         if c["relative"]:
             times = [x / x0 for x in times]
@@ -235,6 +244,12 @@ def body(c):
         return res.fail("nonfinite", {"value": v.tolist(), "reference": ref})
     if abs(v[0] - ref) > 1e-8 * max(1.0, abs(ref)):
         return res.fail("mismatch", {"value": float(v[0]), "reference": ref})
+    # the same object evaluated again after a change notification (what every sampler / optimiser does)
+    for rep in range(2):
+        dic["R"].tensor = dic["R"].tensor.clone()
+        w = arr(model()).reshape(-1)
+        if w.size != 1 or not np.isfinite(w).all() or abs(w[0] - ref) > 1e-8 * max(1.0, abs(ref)):
+            return res.fail("re_evaluation", {"first": float(v[0]), "evaluation": rep + 2, "value": w.tolist(), "reference": ref}, reeval=True)
     return res
 
 
@@ -271,6 +286,8 @@ def constant_body(c):
 @st.composite
 def refine_case(draw):
     c = draw(case(mmax=3, allow_r=False))
+    if c["times_as"] == "default":
+        c["times_as"] = "list"
     topo, names, h, x0, T = geometry(c)
     n = topo.n
     where = draw(st.sampled_from(["generic", "generic", "tip_time", "tip_time", "internal_time"]))
@@ -328,6 +345,8 @@ def options_body(c):
     tip_on_boundary = any(b in set(c["tree"]["tip_heights"]) for b in c["bh"])
     for k, alt in (("relative", not c["relative"]), ("times_as", "param" if c["times_as"] == "list" else "list"), ("root_edge", not c["root_edge"])):
         if tip_on_boundary and k == "relative":
+            continue
+        if c["times_as"] == "default" and k in ("relative", "times_as"):
             continue  # boundaries / origin become rounded sums or products: exact ties are not preserved
         d = dict(c)
         d[k] = alt
